@@ -37,6 +37,8 @@ def _history(b, upto=None):
 
 
 def _jid(j):
+    if "rr" in j:   # the string as received (lossless decomposition, see harness/rawclient.h)
+        return j["u"] + ("@" if j["at"] else "") + j["d"] + ("/" if j["sl"] else "") + j["rr"]
     return f"{j['u']}@{j['d']}/{j['r']}"
 
 
